@@ -342,6 +342,8 @@ def gen_flags(rng: random.Random, tier: str) -> dict:
     case = {"s": s, "uses": kind, "icpt": rng.random() < 0.5, "flags": rng.choice(FLAGSETS)}
     if rng.random() < 0.4:  # the parser was configured differently (and used) before: reconfiguration history
         case["prev_flags"] = [rng.choice(FLAGSETS) for _ in range(rng.randint(1, 2))]
+    if rng.random() < 0.25:
+        case["extended"] = rng.choice(["ctor", "set"])
     if rng.random() < 0.3:  # the configured parser reaches the call as a copy
         case["clone"] = rng.choice(["deepcopy", "pickle", "copy"])
     return case
@@ -372,17 +374,40 @@ def reconfigured_parser(case):
     return parser
 
 
+def extended_resolver_class():
+    """A module-level (hence picklable) subclass of the default resolver, created on first use."""
+    if "ExtendedResolver" not in globals():
+        from formulaic.parser import DefaultOperatorResolver
+
+        cls = type("ExtendedResolver", (DefaultOperatorResolver,), {"__module__": __name__})
+        globals()["ExtendedResolver"] = cls
+    return globals()["ExtendedResolver"]
+
+
 def judge_flags(case) -> Outcome:
     from formulaic import Formula
     from formulaic.errors import FormulaParsingError
 
     out = Outcome()
-    out.sig = (case["uses"], tuple(case["flags"]), case["icpt"], len(case["s"]), repr(case.get("prev_flags")), case.get("clone"))
+    out.sig = (case["uses"], tuple(case["flags"]), case["icpt"], len(case["s"]), repr(case.get("prev_flags")), case.get("clone"), case.get("extended"))
     needs = {"twosided": ["TWOSIDED"], "multipart": ["MULTIPART"], "twosided+multipart": ["TWOSIDED", "MULTIPART"],
              "multistage": ["TWOSIDED", "MULTISTAGE"], "none": []}[case["uses"]]
     disabled = [f for f in needs if f not in case["flags"]]
     try:
         parser = reconfigured_parser(case) if case.get("prev_flags") else parser_for(case["icpt"], case["flags"])
+        if case.get("extended") and not case.get("prev_flags"):
+            # the documented way to add operators: a subclass of the default resolver, handed to the parser
+            from formulaic.parser import DefaultFormulaParser
+
+            Extended = extended_resolver_class()
+            ff = DefaultFormulaParser.FeatureFlags.NONE
+            for nm in case["flags"]:
+                ff |= getattr(DefaultFormulaParser.FeatureFlags, nm)
+            if case["extended"] == "ctor":
+                parser = DefaultFormulaParser(include_intercept=case["icpt"], feature_flags=ff, operator_resolver=Extended())
+            else:
+                parser = DefaultFormulaParser(include_intercept=case["icpt"], operator_resolver=Extended())
+                parser.set_feature_flags(ff)
         if case.get("clone"):
             import copy
             import pickle
